@@ -1,7 +1,7 @@
 #!/usr/bin/env python3
 """Regenerates MANIFEST.json from the table below (kept valid at all times)."""
 import json, os, subprocess
-HOOK_COMMITS = ["1682e78"]
+HOOK_COMMITS = ["1682e78", "8c968fd"]
 CHECKS = {
  # id: (technique, level text, level note, design_ref)
  "C01": ("operation histories vs executable list-of-rows model + structural invariant hook after every step (reference-model runtime monitor)",
@@ -31,7 +31,7 @@ def main():
         else:
             na.append({"property_id":i,"reason":NOT_YET.get(i,"monitor not built yet in this snapshot (planned in DESIGN.md section 1); runtime monitoring applies, nothing is claimed until the check exists")})
     m={"version":1,"setup_cmd":"cd /verif && ./setup.sh",
-       "hooks":{"guard":"verif","enable":"go build -tags verif (every monitor under /verif/mon is built with it; the tag only adds align/verif_invariants.go)",
+       "hooks":{"guard":"verif","enable":"go build -tags verif (every monitor under /verif/mon is built with it; the tag only adds align/verif_invariants.go: VerifInvariants, VerifSubstMatrix)",
                 "baseline_off_cmd":"cd /repo && GOFLAGS=-mod=mod GOPROXY=off GOSUMDB=off GOTOOLCHAIN=local go test -json -vet=off -count=1 -timeout 25m ./...",
                 "source_commits":HOOK_COMMITS,"add_only":True},
        "engines":[{"name":"vcheck","path":"/verif/cmd/vcheck","serves_properties":[c["property_id"] for c in checks],
